@@ -74,6 +74,11 @@ func belongs(o *Obligation, ct *Contract, prop string) bool {
 		if ct != nil {
 			fp = ct.Props
 		}
+		if o.Kind == "variant" && !has(fp, "C05") {
+			// termination is part of C05 (received bytes cannot hang a decoder), C16 (enumerations
+			// terminate) and C13; for other properties a loop's variant is not an obligation
+			return (prop == "C16" || prop == "C13") && has(fp, prop)
+		}
 		if has(fp, "C05") {
 			// a decoder that panics or over-reads also fails to "reject with an error" (C07)
 			return prop == "C05" || (prop == "C07" && has(fp, "C07"))
